@@ -2,7 +2,7 @@
 import ast, math, os, sys, warnings
 import common, extract
 
-LEAN_MODULE = ["ESRVerif.Props.C19", "ESRVerif.Props.C19b"]
+LEAN_MODULE = ["ESRVerif.Props.C19", "ESRVerif.Props.C19b", "ESRVerif.Props.C19c"]
 LEVEL = "other"
 LEVEL_TEXT = ("Partial. Lean theorems over a hand model of get_pred/clear_data and the regenerated formulas: the integration grid contains "
               "every data point, is strictly increasing and (for 1+z >= 1) starts at 1; the mask indexes each data point in the grid "
@@ -13,14 +13,25 @@ LEVEL_TEXT = ("Partial. Lean theorems over a hand model of get_pred/clear_data a
               "with zeta_j, zeta bounds of |G''| on the j-th grid interval / on the hull and h = max((lo-1)/9, 1/25) a PROVED bound of the "
               "steps of the grid built from the shipped constants (Mathlib trapezoidal_error_le_of_c2 on every grid interval, summed); "
               "|delta mu| <= 5 E / (ln 10 min(dL, integral)); mu_i = 5 log10(zp1_i dL_i) + 5 log10(c/H0/10pc); after clear_data the next "
-              "call rebuilds grid and mask from its own argument. NOT proved: floating-point rounding, and the correctness of "
-              "sympy.integrate on the analytic path (conformance-tested on the real code against the numerical path and scipy.integrate.quad).")
+              "call rebuilds grid and mask from its own argument. Analytic path (Props/C19c): with P the lambdified expression run_sympify returns and "
+              "the NAMED hypothesis AntiderivativeContract G P b (P' = G = 1/sqrt(H^2) on [1, b]; the contract of sympy.integrate, third party) "
+              "the regenerated branch dL = P(zp1) - P(1) equals the defining integral (Mathlib FTC-2), mu_i = 5 log10(zp1_i int_1^{zp1_i} G) + const, "
+              "and it agrees with the numerical path within zeta h^2 (zp1_i - 1)/12 (analytic_path_agrees_with_numeric_partial); the hypothesis is "
+              "needed: P' = -G gives minus the integral, a negative dL (posified_antiderivative_negates: log x / a for H^2 = (a x)^2, a < 0). "
+              "run_sympify's call sympy.integrate(1/sqrt(eq), x) is regenerated fail-closed (result must reach the returned eq unprocessed). "
+              "NOT proved: floating-point rounding, and the contract itself - it is CHECKED on every run on the real antiderivative expressions "
+              "(sympy.diff and central differences vs 1/sqrt(H^2), parameter values of both signs), next to the analytic path vs the numerical "
+              "path and scipy.integrate.quad.")
 TECHNIQUE = ("Lean 4 proof on a hand model of the grid/mask/cumulative-trapezoid/cache logic + formulas regenerated from source; "
              "Mathlib trapezoid error bound summed over the non-uniform grid; model-code correspondence on random redshift samples; "
-             "independent quad oracle that checks the real get_pred against exactly the three bounds of the theorems on the real data_x")
+             "independent quad oracle that checks the real get_pred against exactly the three bounds of the theorems on the real data_x; "
+             "analytic branch: Mathlib FTC-2 from a named derivative hypothesis + run-time check of that hypothesis on the antiderivatives the real "
+             "run_sympify returns, over families whose parameters enter through even powers / absolute values / products / quotients at both signs")
 RULE = ("one evaluation = one get_pred call on the real code compared with the model (correspondence) or with scipy.integrate.quad (oracle); "
         "distinct = (function string, parameter vector, sample) ; non-trivial = sample with >= 2 distinct redshifts; samples of 1-200 points, "
-        "sorted / reversed / shuffled, with duplicates and values coinciding with auxiliary grid points")
+        "sorted / reversed / shuffled, with duplicates and values coinciding with auxiliary grid points; one antiderivative-contract evaluation = "
+        "one (function, parameter vector) with the derivative compared at 16 points of [1, 3.4]; signed families at every sign pattern of their "
+        "parameters, magnitudes 10^U(-1, 3.7)")
 EXPLANATION = LEVEL_TEXT
 TRUSTED = ["hand model ESRVerif/Model/Panth.lean of get_pred/clear_data (tied by correspondence: grid bits, mask, mu)",
            "harness/extractors/panth.py (formulas, constants, unit algebra for mu_const)",
@@ -28,7 +39,10 @@ TRUSTED = ["hand model ESRVerif/Model/Panth.lean of get_pred/clear_data (tied by
            "scipy.integrate.quad as the reference integral",
            "zeta_j: |G''| (closed form from hand-written H^2, H^2', H^2'', cross-checked against sympy's second derivative of the "
            "expression the real run_sympify returns) maximised on 9 points per grid interval (end points included) times 1.05",
-           "pointwise evaluation of the lambdified H^2 (eq_numpy)"]
+           "pointwise evaluation of the lambdified H^2 (eq_numpy)",
+           "sympy.integrate (third party): its contract is the hypothesis AntiderivativeContract of Props/C19c.lean, checked at run time with "
+           "sympy.diff + numpy evaluation and with central differences of the lambdified antiderivative against the hand-written 1/sqrt(H^2)",
+           "hand-written H^2, H^2', H^2'' of the signed families (cross-checked against sympy's second derivative of the sympified string)"]
 ASSUMPTIONS = ["1+z >= 1 and NaN-free finite redshifts", "H^2 positive, twice continuously differentiable on [1, 1+z_max]",
                "exact real arithmetic in the theorems (rounding not modelled)",
                "instances are built with object.__new__ and the constructor's own attribute assignments (the covariance files of this "
@@ -36,10 +50,14 @@ ASSUMPTIONS = ["1+z >= 1 and NaN-free finite redshifts", "H^2 positive, twice co
                "the run-time oracle's zeta_j / zeta are not interval-arithmetic enclosures of max|G''|: closed-form G'' sampled on a mesh of 9 "
                "points per grid interval (spacing <= 0.005 on the shipped grid) with a 5% safety factor; the run-time bound is the theorem's "
                "expression evaluated with these zeta on the grid the real code built (data_x) plus the slack 1e-12*|I| + 2*(quad's own error estimate)",
-               "sympy.integrate is tested, not proved"]
+               "sympy.integrate is tested, not proved: AntiderivativeContract is checked at 16 points per (function, parameter vector), tolerance "
+               "1e-9 relative (sympy.diff) / 1e-5 relative + rounding (central differences), not for all x and all parameter values",
+               "analytic path vs quad: 1e-9 relative + 2 quad error estimates + 16 ulps of |F(1+z)| + |F(1)| (cancellation in the subtraction is "
+               "floating-point rounding, outside the property)"]
 # tables whose committed version may stand in as a hand-written model when the translator cannot read the source;
 # value = the correspondence that then ties it to the code (common.prove / common.decide)
-FALLBACK = {'Panth': 'real get_pred grid, mask, cumulative sums and mu vs the Lean model (bit patterns)'}
+FALLBACK = {'Panth': 'real get_pred grid, mask, cumulative sums and mu vs the Lean model (bit patterns); real run_sympify antiderivatives vs '
+                     'the derivative contract and the analytic path vs quad'}
 MODELLED = ["likelihood.py:PanthLikelihood.get_pred", "likelihood.py:PanthLikelihood.clear_data",
             "likelihood.py:PanthLikelihood.run_sympify", "likelihood.py:PanthLikelihood.__init__"]
 
@@ -127,11 +145,19 @@ def new_instance(ctx):
     return inst
 
 
+_SYMPIFY = {}
+
+
 def lambdify(ctx, inst, fstr, nparam, try_integration):
-    """as esr/fitting/test_all.py:153-171 does"""
+    """as esr/fitting/test_all.py:153-171 does.  The real run_sympify is called once per (source file, function string, mode)
+    and its result reused (it is a pure function of its arguments; sympy.integrate dominates the run time otherwise)."""
     import sympy
+    import esr.fitting.likelihood as lk
     from esr.fitting.sympy_symbols import x, a0
-    fcn, eq, integrated = inst.run_sympify(fstr, tmax=2, try_integration=try_integration)
+    key = (lk.__file__, fstr, bool(try_integration))
+    if key not in _SYMPIFY:
+        _SYMPIFY[key] = inst.run_sympify(fstr, tmax=5 if fstr in SIGNED else 2, try_integration=try_integration)
+    fcn, eq, integrated = _SYMPIFY[key]
     if nparam == 0:
         f = sympy.lambdify(x, eq, modules=["numpy"])
     elif nparam > 1:
@@ -147,7 +173,80 @@ def lambdify(ctx, inst, fstr, nparam, try_integration):
 # each: ESR function string, number of parameters, parameter sampler, (h, h', h'') as functions of (x, params)
 # --------------------------------------------------------------------------------------------------------------------
 
+def _draw(r, kinds, signs=None, same=False):
+    """parameter vector for a SIGNED family: kind 'mag' = 10^U(-1, 3.7) (a few decades), 'rate' = U(0.2, 1.6), 'pow' = U(0.3, 4.5);
+    every parameter takes the sign given (or a random one); same=True: all parameters share the first one's sign (the
+    function is a product / quotient of parameters that has to be positive)."""
+    out = []
+    for i, k in enumerate(kinds):
+        sg = (signs[i] if signs is not None else r.choice([-1.0, 1.0]))
+        if same and i:
+            sg = math.copysign(1.0, out[0])
+        mag = 10.0 ** r.uniform(-1.0, 3.7) if k == "mag" else r.uniform(0.2, 1.6) if k == "rate" else r.uniform(0.3, 4.5)
+        out.append(sg * mag)
+    return out
+
+
+def _signed_families():
+    """H^2 that are smooth and POSITIVE on x >= 1 for parameter values of EITHER sign because the parameters enter through even
+    powers, absolute values (ESR's sqrt/pow/log take |.|), same-sign products and quotients; 1/sqrt(H^2) has an elementary
+    antiderivative.  (fstr, npar, sampler(r, signs=None), H^2, H^2', H^2'') - hand-written, independent of sympy and ESR."""
+    import numpy as np
+    D = _draw
+    sq = lambda v: v * v
+    F = [
+        ("square(a0*x)", ["mag"], 0, lambda x, p: sq(p[0] * x), lambda x, p: 2 * sq(p[0]) * x, lambda x, p: 2 * sq(p[0]) + 0 * x),
+        ("pow(a0*x,2)", ["mag"], 0, lambda x, p: sq(p[0] * x), lambda x, p: 2 * sq(p[0]) * x, lambda x, p: 2 * sq(p[0]) + 0 * x),
+        ("square(a0)*cube(x)", ["mag"], 0, lambda x, p: sq(p[0]) * x ** 3, lambda x, p: 3 * sq(p[0]) * x ** 2, lambda x, p: 6 * sq(p[0]) * x),
+        ("square(x)/square(a0)", ["mag"], 0, lambda x, p: sq(x) / sq(p[0]), lambda x, p: 2 * x / sq(p[0]), lambda x, p: 2 / sq(p[0]) + 0 * x),
+        ("square(a0)*x", ["mag"], 0, lambda x, p: sq(p[0]) * x, lambda x, p: sq(p[0]) + 0 * x, lambda x, p: 0 * x),
+        ("sqrt(square(a0))*x", ["mag"], 0, lambda x, p: abs(p[0]) * x, lambda x, p: abs(p[0]) + 0 * x, lambda x, p: 0 * x),
+        ("sqrt(a0)*x", ["mag"], 0, lambda x, p: math.sqrt(abs(p[0])) * x, lambda x, p: math.sqrt(abs(p[0])) + 0 * x, lambda x, p: 0 * x),
+        ("pow(a0,2)*x", ["mag"], 0, lambda x, p: sq(p[0]) * x, lambda x, p: sq(p[0]) + 0 * x, lambda x, p: 0 * x),
+        ("square(a0)*exp(a1*x)", ["mag", "rate"], 0, lambda x, p: sq(p[0]) * np.exp(p[1] * x), lambda x, p: sq(p[0]) * p[1] * np.exp(p[1] * x),
+         lambda x, p: sq(p[0]) * sq(p[1]) * np.exp(p[1] * x)),
+        ("square(a0)*pow(x,a1)", ["mag", "pow"], 0, lambda x, p: sq(p[0]) * x ** p[1], lambda x, p: sq(p[0]) * p[1] * x ** (p[1] - 1),
+         lambda x, p: sq(p[0]) * p[1] * (p[1] - 1) * x ** (p[1] - 2)),
+        ("a0*a1*x", ["mag", "mag"], 1, lambda x, p: p[0] * p[1] * x, lambda x, p: p[0] * p[1] + 0 * x, lambda x, p: 0 * x),
+        ("a0*x/a1", ["mag", "mag"], 1, lambda x, p: p[0] * x / p[1], lambda x, p: p[0] / p[1] + 0 * x, lambda x, p: 0 * x),
+        ("inv(square(a0))*x", ["mag"], 0, lambda x, p: x / sq(p[0]), lambda x, p: 1 / sq(p[0]) + 0 * x, lambda x, p: 0 * x),
+        ("square(a0*a1)*cube(x)", ["mag", "mag"], 0, lambda x, p: sq(p[0] * p[1]) * x ** 3, lambda x, p: 3 * sq(p[0] * p[1]) * x ** 2,
+         lambda x, p: 6 * sq(p[0] * p[1]) * x),
+        ("square(a0/a1)*x", ["mag", "mag"], 0, lambda x, p: sq(p[0] / p[1]) * x, lambda x, p: sq(p[0] / p[1]) + 0 * x, lambda x, p: 0 * x),
+        ("square(a0)*inv(x)", ["mag"], 0, lambda x, p: sq(p[0]) / x, lambda x, p: -sq(p[0]) / x ** 2, lambda x, p: 2 * sq(p[0]) / x ** 3),
+        ("square(a0)*square(a1)*pow(x,a2)", ["mag", "mag", "pow"], 0, lambda x, p: sq(p[0] * p[1]) * x ** p[2],
+         lambda x, p: sq(p[0] * p[1]) * p[2] * x ** (p[2] - 1), lambda x, p: sq(p[0] * p[1]) * p[2] * (p[2] - 1) * x ** (p[2] - 2)),
+        ("square(a0)+square(a1)*x", ["mag", "mag"], 0, lambda x, p: sq(p[0]) + sq(p[1]) * x, lambda x, p: sq(p[1]) + 0 * x, lambda x, p: 0 * x),
+        ("square(a0*x)+square(a1)", ["mag", "mag"], 0, lambda x, p: sq(p[0] * x) + sq(p[1]), lambda x, p: 2 * sq(p[0]) * x, lambda x, p: 2 * sq(p[0]) + 0 * x),
+        ("pow(a0,4)*square(x)", ["mag"], 0, lambda x, p: p[0] ** 4 * sq(x), lambda x, p: 2 * p[0] ** 4 * x, lambda x, p: 2 * p[0] ** 4 + 0 * x),
+        ("inv(square(a0*x))", ["mag"], 0, lambda x, p: 1 / sq(p[0] * x), lambda x, p: -2 / (sq(p[0]) * x ** 3), lambda x, p: 6 / (sq(p[0]) * x ** 4)),
+    ]
+    mk = lambda kinds, same: (lambda r, signs=None: D(r, kinds, signs, bool(same)))
+    return [(fs, len(kinds), mk(kinds, same), h, h1, h2) for fs, kinds, same, h, h1, h2 in F]
+
+
+SIGNED = frozenset(["square(a0*x)", "pow(a0*x,2)", "square(a0)*cube(x)", "square(x)/square(a0)", "square(a0)*x", "sqrt(square(a0))*x",
+                    "sqrt(a0)*x", "pow(a0,2)*x", "square(a0)*exp(a1*x)", "square(a0)*pow(x,a1)", "a0*a1*x", "a0*x/a1", "inv(square(a0))*x",
+                    "square(a0*a1)*cube(x)", "square(a0/a1)*x", "square(a0)*inv(x)", "square(a0)*square(a1)*pow(x,a2)",
+                    "square(a0)+square(a1)*x", "square(a0*x)+square(a1)", "pow(a0,4)*square(x)", "inv(square(a0*x))"])
+SAME_SIGN = frozenset(["a0*a1*x", "a0*x/a1"])
+
+
+def _sign_patterns(fam):
+    """every sign pattern of a signed family's parameters (same-sign families: all + / all -); [None] for the others"""
+    import itertools
+    if fam[0] not in SIGNED:
+        return [None]
+    if fam[0] in SAME_SIGN:
+        return [tuple([1.0] * fam[1]), tuple([-1.0] * fam[1])]
+    return list(itertools.product([1.0, -1.0], repeat=fam[1]))
+
+
 def _families():
+    return _base_families() + _signed_families()
+
+
+def _base_families():
     import numpy as np
     u = lambda r, a, b: r.uniform(a, b)
     return [
@@ -484,9 +583,10 @@ def _corr_g2(ctx, n):
     for fam in _families():
         fstr, npar = fam[0], fam[1]
         _, _, eq = lambdify(ctx, probe, fstr, npar, False)
-        # 1+z > 0 and every family samples positive parameters: Abs/sign (e.g. sqrt((a0+x)^2)) reduce before differentiating
+        # 1+z > 0 and the unsigned families sample positive parameters: Abs/sign (e.g. sqrt((a0+x)^2)) reduce before differentiating
         xp = sympy.Symbol("xp", positive=True)
-        ap = [sympy.Symbol("ap%d" % i, positive=True) for i in range(npar)]
+        # the signed families are drawn at BOTH signs: their parameters stay real (sqrt(a^2 x^2) must not become a x)
+        ap = [sympy.Symbol("ap%d" % i, **({"real": True} if fstr in SIGNED else {"positive": True})) for i in range(npar)]
         sub = {x: xp}
         for sym in eq.free_symbols:
             if sym.name.startswith("a") and sym.name[1:].isdigit() and int(sym.name[1:]) < npar:
@@ -511,6 +611,8 @@ def _corr_g2(ctx, n):
     return ops, bad
 
 
+ROUND_ULPS = 16          # analytic path: ulps of |F(1+z)| + |F(1)| granted to the subtraction F(1+z) - F(1)
+ANA_REL = 1e-9           # analytic path vs quad: relative tolerance (plus twice quad's own error estimate)
 MESH = 9                 # points per grid interval (end points included) on which |G''| is maximised
 SAFETY = 1.05            # factor on the sampled maximum
 STEP_DIV, STEP_MIN = 9.0, 1.0 / 25.0      # ESR.C19.grid_step_le_shipped:  h = max((lo - 1)/9, 1/25)
@@ -638,7 +740,7 @@ def check_case(ctx, fam_index, params, zp1, zp1_b=None, record=True):
                 if ref[name][i] > 0:
                     st["max_ratio"][name] = max(st["max_ratio"][name], round(over / ref[name][i], 4))
             if d <= tol and B[i] > 0:
-                ratio = max(ratio, d / B[i])
+                ratio = max(ratio, max(0.0, d - slack) / B[i])
         if worst is not None:
             _, i, dl, Ii, tol = worst
             fail(tag + "trapz-vs-quad",
@@ -663,6 +765,7 @@ def check_case(ctx, fam_index, params, zp1, zp1_b=None, record=True):
     nontriv = len(set(zp1)) >= 2
     ctx.case(("quad", fstr, tuple(params), tuple(zp1)), nontrivial=nontriv)
     # analytic path vs numerical path
+    integ, fi, eq = False, None, None
     if got is not None:
         mu, I, B, E = got
         try:
@@ -680,15 +783,40 @@ def check_case(ctx, fam_index, params, zp1, zp1_b=None, record=True):
                 if not np.array_equal(zin, np.array(zp1, dtype=float)):
                     fail("analytic-mutates-input", "%s a=%r: get_pred(..., integrated=True) changed the redshift sample it was given: %r became %r"
                          % (fstr, list(params), list(zp1)[:6], zin[:6].tolist()))
+                if mua.shape != (len(zp1),):
+                    fail("analytic-shape", "integrated get_pred returns shape %r for %d redshifts (%s)" % (mua.shape, len(zp1), fstr))
+                    mua = np.full(len(zp1), float("nan"))
+                # floating-point cancellation in F(1+z) - F(1) (rounding is outside the property: exact arithmetic in the theorems):
+                # a few ulps of the two values that are subtracted
+                with np.errstate(all="ignore"):
+                    rnd = ROUND_ULPS * 2.3e-16 * (np.abs(_eval(fi, zp1, list(a))) + abs(float(_eval(fi, [1.0], list(a))[0])))
+                rnd = np.where(np.isfinite(rnd), rnd, 0.0)
                 for i in range(len(zp1)):
                     da = float(_dl_from_mu(mua[i], zp1[i], inst.mu_const))
                     dn = float(_dl_from_mu(mu[i], zp1[i], inst.mu_const))
-                    tol = B[i] + 1e-11 * abs(I[i]) + 2 * E[i]
+                    tol = B[i] + 1e-11 * abs(I[i]) + 2 * E[i] + rnd[i]
                     if not (abs(da - dn) <= tol):
                         fail("analytic-vs-numeric",
                              "%s a=%r at 1+z=%r: analytic path mu=%r (integral %r), numerical path mu=%r (integral %r); quad %r; "
                              "difference %.3e exceeds the trapezoid bound %.3e" % (fstr, list(params), zp1[i], float(mua[i]), da, float(mu[i]), dn, I[i], abs(da - dn), tol))
                         break
+                # ... and against the defining integral itself (analytic_dL_eq_integral: no quadrature error on this path)
+                st = ctx.extra.setdefault("analytic_vs_quad", dict(theorem="ESR.C19.analytic_dL_eq_integral", cases=0, points=0,
+                                                                    cases_with_a_negative_parameter=0, max_rel_err=0.0))
+                st["cases"] += 1; st["points"] += len(zp1); st["cases_with_a_negative_parameter"] += int(any(v < 0 for v in params))
+                for i in range(len(zp1)):
+                    da = float(_dl_from_mu(mua[i], zp1[i], inst.mu_const))
+                    tol = ANA_REL * abs(I[i]) + 2 * E[i] + rnd[i]
+                    if abs(da - I[i]) <= tol:
+                        if I[i]:
+                            st["max_rel_err"] = max(st["max_rel_err"], float("%.3g" % (abs(da - I[i]) / abs(I[i]))))
+                        continue
+                    fail("analytic-vs-quad",
+                         "%s a=%r at 1+z=%r (index %d of %d): get_pred(integrated=True) gives mu=%r, i.e. dL = F(1+z)-F(1) = %r with F = %s, but the "
+                         "defining integral int_1^{1+z} dx/sqrt(H^2) is %r (quad; mu_ref=%r; numerical path mu=%r)"
+                         % (fstr, list(params), zp1[i], i, len(zp1), float(mua[i]), da, str(eq)[:160], I[i],
+                            5 * math.log10(zp1[i] * I[i]) + inst.mu_const if I[i] > 0 else float("-inf"), float(mu[i])))
+                    break
             except NameError as e:
                 # sympy's antiderivative uses a function numpy does not implement (meijerg, hyper, ...): the pipeline
                 # (test_all.py:286-289, 385-395) catches exactly this and repeats the fit on the numerical path
@@ -717,8 +845,153 @@ def check_case(ctx, fam_index, params, zp1, zp1_b=None, record=True):
                      "%s: get_pred(A) [%d redshifts]; clear_data(); get_pred(B) [%d redshifts] %s"
                      % (fstr, len(zp1), len(zp1_b), "differs from a fresh instance's get_pred(B)" if not same
                         else "leaves a data_x that does not contain B's redshifts"))
+        # the analytic path after clear_data, on the other sample (it neither reads nor writes the cache)
+        if gb is not None and integ and not isinstance(ctx.extra.get("analytic", {}).get(fstr), str):
+            try:
+                with warnings.catch_warnings():
+                    warnings.simplefilter("ignore")
+                    a = np.atleast_1d(np.array(params, dtype=float)) if npar else np.array([])
+                    mub = np.atleast_1d(np.asarray(inst.get_pred(np.array(zp1_b, dtype=float), a, fi, integrated=True), dtype=float))
+                if mub.shape != (len(zp1_b),):
+                    mub = np.full(len(zp1_b), float("nan"))
+                with np.errstate(all="ignore"):
+                    rnd = ROUND_ULPS * 2.3e-16 * (np.abs(_eval(fi, zp1_b, list(a))) + abs(float(_eval(fi, [1.0], list(a))[0])))
+                rnd = np.where(np.isfinite(rnd), rnd, 0.0)
+                for i in range(len(zp1_b)):
+                    db = float(_dl_from_mu(mub[i], zp1_b[i], inst.mu_const))
+                    if not (abs(db - gb[1][i]) <= ANA_REL * abs(gb[1][i]) + 2 * gb[3][i] + rnd[i]):
+                        fail("analytic-after-clear-vs-quad", "%s a=%r: after clear_data(), get_pred(integrated=True) at 1+z=%r gives dL=%r (mu=%r), the defining "
+                             "integral is %r" % (fstr, list(params), zp1_b[i], db, float(mub[i]), gb[1][i]))
+                        break
+                if inst.data_x is None or not all(np.any(np.asarray(inst.data_x) == v) for v in zp1_b):
+                    fail("analytic-touches-cache", "%s: integrated get_pred after the numerical one changed the cached grid" % fstr)
+            except Exception as e:
+                fail("analytic-raises", "integrated get_pred raises %s: %s (%s, after clear_data)" % (type(e).__name__, e, fstr))
         ctx.case(("clear", fstr, tuple(params), tuple(zp1), tuple(zp1_b)), nontrivial=nontriv)
     return fails
+
+
+def check_contract(ctx, fam_index, params, xs, record=True):
+    """The named hypothesis of Props/C19c.lean, `ESR.C19.AntiderivativeContract G P b`, on the REAL objects: P = the expression the real
+    run_sympify(try_integration=True) returned for the family's function string (as a function of x at these parameter values),
+    G = 1/sqrt(H^2) from the hand-written H^2.  P' is formed (i) by sympy.diff of the expression, evaluated with numpy, and (ii) by
+    central differences of the very lambdified function get_pred is given.  Returns the list of failures (recorded as failing inputs
+    together with the mu mismatch they cause)."""
+    import numpy as np, sympy, scipy.integrate
+    from esr.fitting.sympy_symbols import x
+    fam = _families()[fam_index]
+    fstr, npar = fam[0], fam[1]
+    inst = new_instance(ctx)
+    try:
+        fi, integ, F = lambdify(ctx, inst, fstr, npar, True)
+    except Exception:
+        return None
+    if not integ:
+        return None
+    xs = np.array(xs, dtype=float)
+    g = 1.0 / np.sqrt(np.broadcast_to(np.asarray(fam[3](xs, params), dtype=float), xs.shape))
+    fails = []
+    with warnings.catch_warnings():
+        warnings.simplefilter("ignore")
+        with np.errstate(all="ignore"):
+            try:
+                Fx = _eval(fi, xs, list(params))
+            except NameError:
+                return None                       # not a numpy function: the pipeline falls back to the numerical path
+            key = (fstr, "dF")
+            if key not in _SYMPIFY:
+                try:
+                    syms = list(sympy.symbols(" ".join("a%d" % i for i in range(npar)), real=True, seq=True)) if npar else []
+                    _SYMPIFY[key] = sympy.lambdify([x] + syms, sympy.diff(F, x), modules=["numpy"])
+                except Exception as e:
+                    _SYMPIFY[key] = None
+            how = []
+            if _SYMPIFY[key] is not None:
+                try:
+                    how.append(("sympy.diff of the returned expression", _eval(_SYMPIFY[key], xs, list(params)), 1e-9 * g))
+                except Exception:
+                    pass
+            e = 1e-6
+            num = (_eval(fi, xs * (1 + e), list(params)) - _eval(fi, xs * (1 - e), list(params))) / (2 * e * xs)
+            how.append(("central differences of the lambdified function", num, 1e-5 * g + 8 * 2.3e-16 * np.abs(Fx) / (e * xs)))
+    for name, d, tol in how:
+        bad = ~(np.abs(d - g) <= tol)
+        if np.any(bad):
+            k = int(np.argmax(np.where(bad, np.abs(d - g) / g, 0)))
+            xb = float(xs[k])
+            # the mu mismatch this causes on the real get_pred at the single redshift 1+z = x
+            zz = max(xb, 1.0 + 1e-3)
+            a = np.atleast_1d(np.array(params, dtype=float)) if npar else np.array([])
+            with warnings.catch_warnings():
+                warnings.simplefilter("ignore")
+                with np.errstate(all="ignore"):
+                    try:
+                        mua = float(np.atleast_1d(inst.get_pred(np.array([zz]), a, fi, integrated=True))[0])
+                    except Exception as ex:
+                        mua = "raises %s" % type(ex).__name__
+                    I = scipy.integrate.quad(lambda t: 1.0 / math.sqrt(float(fam[3](t, params))), 1.0, zz, epsabs=0, epsrel=1e-13)[0]
+            what = ("%s a=%r: the antiderivative run_sympify returned, F = %s, violates the contract of ESR.C19.AntiderivativeContract at x=%r: "
+                    "dF/dx = %r (%s) but 1/sqrt(H^2) = %r; consequently get_pred(integrated=True) at 1+z=%r gives mu=%r whereas the defining "
+                    "integral gives mu=%r" % (fstr, list(params), str(F)[:160], xb, float(d[k]), name, float(g[k]), zz, mua,
+                                              5 * math.log10(zz * I) + inst.mu_const if I > 0 else float("-inf")))
+            fails.append(what)
+            if record:
+                ctx.fail("get_pred:antiderivative-contract:%s" % fstr, what,
+                         dict(kind="contract", fn=fstr, fam=fam_index, params=[float(v).hex() for v in params], xs=[float(v).hex() for v in xs]))
+            break
+    return fails
+
+
+def _contract(ctx, n):
+    """check_contract over every family run_sympify integrates, every sign pattern of the signed ones, n parameter draws each"""
+    r = ctx.rng
+    fams = _families()
+    st = dict(hypothesis="ESR.C19.AntiderivativeContract", used_by=["ESR.C19.analytic_dL_eq_integral", "ESR.C19.analytic_mu_eq_defining_integral",
+                                                                    "ESR.C19.analytic_path_agrees_with_numeric_partial"],
+              functions_checked=0, functions_not_integrated=[], parameter_vectors=0, with_a_negative_parameter=0, points=0, failed=0)
+    for fi, fam in enumerate(fams):
+        done = False
+        for sg in _sign_patterns(fam):
+            for _ in range(n):
+                params = fam[2](r) if sg is None else fam[2](r, sg)
+                xs = [1.0] + [r.uniform(1.0, 3.4) for _ in range(14)] + [3.4]
+                res = check_contract(ctx, fi, params, xs)
+                if res is None:
+                    break
+                done = True
+                st["parameter_vectors"] += 1; st["points"] += len(xs); st["with_a_negative_parameter"] += int(any(v < 0 for v in params))
+                st["failed"] += int(bool(res))
+                ctx.case(("contract", fam[0], tuple(params)), nontrivial=True, n=len(xs))
+            if not done:
+                break
+        if done:
+            st["functions_checked"] += 1
+        else:
+            st["functions_not_integrated"].append(fam[0])
+    ctx.extra["antiderivative_contract"] = st
+    if st["functions_checked"] == 0 or st["with_a_negative_parameter"] == 0:
+        ctx.disagree("hyp:AntiderivativeContract", "the hypothesis of analytic_dL_eq_integral was checked on no antiderivative at a negative parameter "
+                     "value (run_sympify integrated %d functions of the family)" % st["functions_checked"])
+    return st["parameter_vectors"], 0
+
+
+def _oracle_signed(ctx, reps):
+    """the signed families at EVERY sign pattern of their parameters: numerical path vs quad, analytic path vs numerical path and vs
+    quad, sorted/unsorted/duplicated samples, and again after clear_data on another sample"""
+    r = ctx.rng
+    fams = _families()
+    per = {}
+    for fi, fam in enumerate(fams):
+        if fam[0] not in SIGNED:
+            continue
+        for sg in _sign_patterns(fam):
+            for k in range(reps):
+                params = fam[2](r, sg)
+                A, _, _ = _sample(r, 40, allow_one=False)
+                B, _, _ = _sample(r, 25, allow_one=False)
+                check_case(ctx, fi, params, A, B)
+                per[fam[0]] = per.get(fam[0], 0) + 1
+    ctx.extra["oracle_signed_cases_per_family"] = per
 
 
 def _oracle(ctx, n):
@@ -752,12 +1025,13 @@ def run(ctx):
     with LineCov([P.get_pred, P.clear_data, P.run_sympify]) as cov:
         for name, fn, size in (("constants", _corr_shipped, None), ("linspace", _corr_linspace, 3000 if deep else 400),
                                ("cumulative_trapezoid", _corr_cumtrapz, 600 if deep else 80), ("get_pred", _corr_run, 1500 if deep else 160),
-                               ("G''_vs_sympy", _corr_g2, 40 if deep else 8)):
+                               ("G''_vs_sympy", _corr_g2, 40 if deep else 8), ("antiderivative_contract", _contract, 8 if deep else 3)):
             try:
                 res[name] = fn(ctx) if size is None else fn(ctx, size)
             except Exception as e:
                 ctx.disagree("corr:%s" % name, "correspondence could not run: %r" % (e,))
                 res[name] = (0, 1)
+        _oracle_signed(ctx, 6 if deep else 2)
         _oracle(ctx, 1500 if deep else 150)
     ctx.extra["anchored_line_coverage"] = cov.report()
     ctx.extra["corr_obligations"] = len(res)
@@ -765,7 +1039,8 @@ def run(ctx):
     ctx.extra["correspondence"] = {k: dict(ops=v[0], mismatches=v[1]) for k, v in res.items()}
     ctx.extra["exhaustive"] = False
     ctx.extra["not_proved"] = ["floating-point rounding of the trapezoid sums (the theorems are over the reals)",
-                               "sympy.integrate on the analytic path (tested against the numerical path)"]
+                               "sympy.integrate on the analytic path: its contract is the hypothesis ESR.C19.AntiderivativeContract, checked at run time "
+                               "(extra.antiderivative_contract), and the path is tested against the numerical path and quad"]
     qb = ctx.extra.get("quadrature_bound")
     if qb:
         ctx.extra["max_error_over_theorem_bound"] = max(qb["max_ratio"].values())
@@ -778,6 +1053,11 @@ def replay(ctx, data):
     un = lambda l: None if l is None else [float.fromhex(v) for v in l]
     names = [f[0] for f in _families()]
     fi = names.index(rp["fn"]) if rp.get("fn") in names else rp["fam"]
+    if rp.get("kind") == "contract":
+        fails = check_contract(ctx, fi, un(rp["params"]), un(rp["xs"]), record=False) or []
+        for f in fails:
+            print("  " + f)
+        return not fails
     fails = check_case(ctx, fi, un(rp["params"]), un(rp["zp1"]), un(rp.get("zp1_b")), record=False)
     for f in fails:
         print("  " + f)
